@@ -27,6 +27,13 @@ for net, q, idx, mask, tiers in ((2, 0, 2, 0b0000, ("quick", "thorough")), (2, 2
             net, q, idx, [j for j in range(4) if mask >> j & 1]),
         harness=B + "ZZVerif_C12_InjectedLeaf", params={"NET": net, "Q": q, "IDX": idx, "MASK": mask}, tiers=tiers, time_limit_s=1500,
         bounds="four L1 info leaves with arbitrary contents; request parameters concrete"))
+for net, q, dc, tiers in ((2, 0, 3, ("quick", "thorough")), (2, 2, 3, ("quick", "thorough")), (2, 3, 0, ("quick", "thorough")), (1, 1, 0, ("thorough",)), (3, 0, 200, ("thorough",)),
+                          (3, 3, 255, ("thorough",)), (2, 2, 1, ("thorough",))):
+    OBLIGATIONS.append(dict(
+        name="C12.d /l1-info-tree-index through the real handler: node of network %d asked for network %d, deposit %d: a covering index or an error" % (net, q, dc),
+        harness=B + "ZZVerif_C12_IndexHandler", params={"NET": net, "Q": q, "DC": dc}, tiers=tiers,
+        reach=["foreign"] if q not in (0, net) else ["found", "notcovered"], time_limit_s=900,
+        bounds="two L1 info updates in blocks 1..4, every non-decreasing last-deposit index per network (8 bit); request parameters concrete"))
 ASSUMPTIONS = ["the L1 info syncer and the bridge syncers answer as C01/C08/C11 establish for the real ones (fakes in the harness: lookups over ordered lists)",
                "exit roots are distinct tags; the deposit index of an exit root is the index of the last leaf it contains",
                "L2: every rollup exit root produced by a verify-batches event is carried by an L1 info leaf (the protocol assumption stated in the code)"]
